@@ -128,6 +128,7 @@ func cmdCheck(args []string) int {
 	keep := fs.Bool("keep", false, "keep SMT files of failing obligations in .work")
 	verbose := fs.Bool("v", false, "verbose")
 	dump := fs.String("dump", "", "write the SMT scripts of checks whose name matches to .work")
+	dumpLevel := fs.Int("dump-level", -1, "relevance level of the dumped scripts (-1: full)")
 	if len(args) < 1 {
 		usage()
 	}
@@ -202,10 +203,11 @@ func cmdCheck(args []string) int {
 		for _, c := range x.checks {
 			if re.MatchString(c.Name) {
 				n++
-				os.WriteFile(filepath.Join(verifDir, ".work", fmt.Sprintf("dump_%s_%d.smt2", sanitize(c.Name), n)), []byte(c.Script(10000, false)), 0o644)
+				os.WriteFile(filepath.Join(verifDir, ".work", fmt.Sprintf("dump_%s_%d.smt2", sanitize(c.Name), n)), []byte(c.ScriptLevel(10000, false, *dumpLevel)), 0o644)
 			}
 		}
 	}
+	opts.hints = readHints(prop)
 	obls, covers, stats := discharge(x.checks, opts)
 	solveSecs := time.Since(t0).Seconds() - loadSecs - genSecs
 
@@ -343,7 +345,29 @@ func cmdCheck(args []string) int {
 				names = append(names, ob.Name)
 			}
 		}
-		writeLedgerFile(prop, names)
+		hints := map[string][]string{}
+		for _, ob := range obls {
+			if ob.Status != "discharged" {
+				continue
+			}
+			seen := map[string]bool{}
+			for _, in := range ob.Instances {
+				rung := in.Result.Solver
+				// only rungs that took effort are worth remembering (the first rung is tried anyway)
+				// the rung the ladder starts with anyway need not be remembered
+				first := "z3-5.1.0/rel0"
+				if in.Check.Focus != "" {
+					first = "z3-5.1.0/rel30"
+				}
+				if rung == "" || seen[rung] || rung == first {
+					continue
+				}
+				seen[rung] = true
+				hints[ob.Name] = append(hints[ob.Name], rung)
+			}
+			sort.Strings(hints[ob.Name])
+		}
+		writeLedgerFile(prop, names, hints)
 	}
 	if onlyRe == nil {
 		writeEvidence(x, plan, prop, *tier, seed, obls, covers, reports, stats, discharged, violations, wall, loadSecs, genSecs, solveSecs, fnHashes, failedNames, lines)
@@ -429,6 +453,20 @@ func readPlan(prop string) (*Plan, error) {
 	return &p, nil
 }
 
+// readHints: per obligation, the ladder rungs that discharged it when the ledger was written
+// (tried first; any `unsat` counts, so a stale hint costs time only).
+func readHints(prop string) map[string][]string {
+	data, err := os.ReadFile(filepath.Join(verifDir, "ledger", prop+".json"))
+	if err != nil {
+		return nil
+	}
+	var l struct {
+		Hints map[string][]string `json:"hints"`
+	}
+	json.Unmarshal(data, &l)
+	return l.Hints
+}
+
 func readLedger(prop string) []string {
 	data, err := os.ReadFile(filepath.Join(verifDir, "ledger", prop+".json"))
 	if err != nil {
@@ -441,10 +479,10 @@ func readLedger(prop string) []string {
 	return l.Obligations
 }
 
-func writeLedgerFile(prop string, names []string) {
+func writeLedgerFile(prop string, names []string, hints map[string][]string) {
 	sort.Strings(names)
 	os.MkdirAll(filepath.Join(verifDir, "ledger"), 0o755)
-	data, _ := json.MarshalIndent(map[string]interface{}{"property": prop, "obligations": names}, "", " ")
+	data, _ := json.MarshalIndent(map[string]interface{}{"property": prop, "obligations": names, "hints": hints}, "", " ")
 	os.WriteFile(filepath.Join(verifDir, "ledger", prop+".json"), append(data, '\n'), 0o644)
 }
 
